@@ -102,6 +102,12 @@ CLAIMS["C03"] = dict(
     text="TLC checks for every string up to the bound (colons, `//`, commas, quotes, backslashes, spaces, non-ASCII) and every kind of text field that a representable value comes back unchanged, and predicts the exact read-back of every other value; the real pair encode/decode must return the predicted string for each (metadata texts, audio file name, background file, custom colour name) with all other preserved fields unchanged; about 100 single- and multi-field numeric, flag, enum, bookmark, colour and break edits per generated base map must survive as well.",
     note="Representable sets per field are an interpretation written down in StrCodec!Representable. Derived values (slider velocities after a slider-multiplier edit, combo flags after a break edit) are excluded from the frame condition.")
 
+CLAIMS["C15"] = dict(
+    category="model_checking", design_ref="DESIGN.md section 4, C15",
+    technique="TLA+ spec MapPost (TimingLines decoder composed with stable sort, break sweep, slider velocity/duration and sample-point defaults at end+5 ms / node+5 ms) with invariants SortedStable, ComboAfterBreak, ClosedForms and ShiftInvariant checked by TLC over all small maps; replay through HitObjects and Beatmap (a sample also shifted); text-level shift relation on bundled and generated files",
+    text="TLC enumerates every map of up to two objects (four kinds, equal and boundary start times, flags, sample shapes) x five timing sections x five break lists x multipliers x modes and checks that objects come out in stable time order, that the first object after a break starts a combo, the closed forms of velocity and duration, and that processing commutes with shifting all times by +-1, -7 and +-10^6 ms; the real decoders are compared with the predicted objects (combo flags, velocity, duration, object and node sample bank/volume/custom index) on every case, and on real files with whole-millisecond times a text-level shift by seven different offsets must change nothing but the times.",
+    note="Exactness rule: dyadic velocities and durations so that the `+5 ms` lookups are decided exactly; breaks in chronological file order; at most 2 objects per enumerated map.")
+
 NOT_YET = "check not built yet in this round (planned, see DESIGN.md section 4)"
 NA = {
     "C17": "real-valued geometry (Hausdorff distance to Bezier/arc/Catmull curves): no discrete state or history for a TLA+ specification to decide; see DESIGN.md section 4, C17",
